@@ -142,7 +142,7 @@ macro_rules! check_typed {
                 $v.fail(format!("remainder | {} is not a - b*trunc(a/b) in value and derivatives", name), format!("a = {:?}, b = {:?}, float {:e}: got {:?}, expected {:?}", va, vb, f, got, exp));
                 return;
             }
-            if (got.0 - frem).abs() > 1e-12 * scale {
+            if !((got.0 - frem).abs() <= 1e-12 * scale) {
                 $v.fail(format!("remainder | {} value differs from the float remainder", name), format!("{:e} vs {:e}", got.0, frem));
                 return;
             }
